@@ -125,6 +125,8 @@ def run(ctx):
     from checks import regen
     regen.gen_enums()
     vlib.proof_step(ctx)
+    import dpcmtie
+    dpcmtie.run(ctx, 800 if q else 20000)
     diff = wrappers.tie(ctx, relevant=["sf_seek", "sf_read", "psf_default_seek", "VALIDATE"])
     script, dist, plan = gen_script(ctx, q)
     ctx.distribution.update(dist)
